@@ -16,19 +16,19 @@ ID = 'C07'
 def plan(tier):
     if tier == 'quick':
         return [(1, ('plain',), 'RBWN', 2, False), (2, ('plain', 'rainbow'), 'RBWN', 2, False),
-                (3, ('plain',), 'RBW', 2, False), (3, ('rainbow',), 'RWN', 1, True), (4, ('plain',), 'RB', 2, False)]
+                (3, ('plain',), 'RBW', 2, False), (3, ('rainbow',), 'RWN', 1, True), (4, ('plain',), 'RB', 2, False), (3, ('parsed',), 'RW', 1, False), (3, ('plain',), 'egB', 2, False), (3, ('long',), 'RB', 2, False)]
     return [(1, ('plain',), 'RBWNX', 3, False), (2, ('plain', 'rainbow'), 'RBWN', 3, False),
             (3, ('plain', 'rainbow'), 'RBWN', 2, True), (3, ('plain',), 'RBW', 3, False), (4, ('plain', 'rainbow'), 'RBW', 2, False),
-            (5, ('plain',), 'RB', 2, False)]
+            (5, ('plain',), 'RB', 2, False), (3, ('long',), 'RBW', 2, False)]
 
 
 def tasks(tier, seed):
-    return explore.std_tasks(plan(tier))
+    return explore.std_tasks(explore.plan_override(ID, plan(tier)))
 
 
 def menu(seed, tier):
     R = explore.roles(seed)
-    m = [None, [R['R']], [R['B']], [R['W']], [R['N']], [R['G']], [R['R'], R['B']], [R['R'], R['W']], []]
+    m = [None, [R['R']], [R['B']], [R['W']], [R['N']], [R['G']], [R['R'], R['B']], [R['R'], R['W']], [], [R['e']], [R['m']]]
     if tier != 'quick':
         m += [[R['X']], [R['T']], [R['R'], R['B'], R['W'], R['N']]]
     return m
@@ -66,7 +66,8 @@ def check_remove(h, pre, S, i, j):
         if model.canon_hash(v) != ch0:
             bad.append(('remove-noop', '%s with an empty range is not a no-op: cells %s -> %s' % (what, cells, c2)))
         return bad, v
-    want = model_remove(cells, S, s, e)
+    from ..hist import expand_codes
+    want = model_remove(cells, None if S is None else expand_codes(S), s, e)
     for k in range(L):
         if c2[k] != want[k] and model.cell_nf(c2[k]) != model.cell_nf(want[k]):
             inside = s <= k < e
@@ -85,7 +86,7 @@ def check_state(h, v, acc, tier):
     L = len(text)
     pre = (text, cells, model.canon_hash(v))
     m = menu(acc.seed, tier)
-    bounds = list(range(-L - 2, L + 4)) + [None]
+    bounds = explore.probe_bounds(L, 2, 3)
     out = []
     norm_canon = {}
     present = set(c for cell in cells for c in cell)
